@@ -40,6 +40,7 @@ const (
 	kSubV
 	kSubC
 	kSubCL // Collection.Pull without backpressure, consumer stalled until every call has returned
+	kSubID // Collection.PullID, backpressured
 )
 
 type fcall struct {
@@ -49,6 +50,10 @@ type fcall struct {
 	o    *fwo
 	ro   *fro
 	name string // template name, for the histogram
+	// Add("") with WithGenIDIfAbsent: the byte strings this call's rng reads return, in order; the
+	// id the call reported through WithIDCallback replaces c.id before the case is printed, i.e.
+	// the model sees the call as Add(<reported id>) (see notes/C02.md, generated ids)
+	genCands [][]byte
 }
 
 func (c *fcall) coq() string {
@@ -65,11 +70,13 @@ func (c *fcall) coq() string {
 		return vcoq.App("FSubV", c.ro.coq())
 	case kSubCL:
 		return vcoq.App("FSubCL", c.ro.coq())
+	case kSubID:
+		return vcoq.App("FSubID", vcoq.Str(c.id), c.ro.coq())
 	}
 	return vcoq.App("FSubC", c.ro.coq())
 }
 func (c *fcall) js() any {
-	m := map[string]any{"op": []string{"Value.Set", "Collection.Update", "Collection.Add", "Collection.Delete", "Value.Pull", "Collection.Pull", "Collection.Pull (no backpressure, reader behind)"}[c.kind]}
+	m := map[string]any{"op": []string{"Value.Set", "Collection.Update", "Collection.Add", "Collection.Delete", "Value.Pull", "Collection.Pull", "Collection.Pull (no backpressure, reader behind)", "Collection.PullID"}[c.kind]}
 	switch c.kind {
 	case kSet:
 		m["msg"], m["opts"] = jsMsg(&c.msg), c.o.js()
@@ -77,12 +84,16 @@ func (c *fcall) js() any {
 		m["id"], m["msg"], m["opts"] = c.id, jsMsg(&c.msg), c.o.js()
 	case kDelete:
 		m["id"], m["opts"] = c.id, c.o.js()
+	case kSubID:
+		m["id"], m["read_opts"] = c.id, c.ro.js()
 	default:
 		m["read_opts"] = c.ro.js()
 	}
 	return m
 }
-func (c *fcall) isSub() bool { return c.kind == kSubV || c.kind == kSubC || c.kind == kSubCL }
+func (c *fcall) isSub() bool {
+	return c.kind == kSubV || c.kind == kSubC || c.kind == kSubCL || c.kind == kSubID
+}
 
 type fout struct {
 	msg  *fmsg
@@ -102,9 +113,9 @@ type scenario struct {
 	// registered with the bus (cancelled listeners are collected by a later Send)
 	cancelledSub bool
 	vinit        *fmsg
-	cinit []initItem // sorted by id
-	prog  []*fcall
-	tags  []string
+	cinit        []initItem // sorted by id
+	prog         []*fcall
+	tags         []string
 }
 
 // ---------- one forced run ----------
@@ -119,30 +130,36 @@ type runResult struct {
 	finalC   []kv
 	vstreams map[int][]ovchange
 	cstreams map[int][]ochange
+	closed   []int
 	err      error
 }
 
 type world struct {
-	val    *resource.Value
-	coll   *resource.Collection
-	ctx    context.Context
-	cancel context.CancelFunc
-	mu     sync.Mutex
-	vgot   map[int][]ovchange
-	cgot   map[int][]ochange
-	lossy  map[int]<-chan *resource.CollectionChange
-	wg     sync.WaitGroup
+	val      *resource.Value
+	coll     *resource.Collection
+	ctx      context.Context
+	cancel   context.CancelFunc
+	mu       sync.Mutex
+	vgot     map[int][]ovchange
+	cgot     map[int][]ochange
+	lossy    map[int]<-chan *resource.CollectionChange
+	rng      *gidRNG
+	extraIDs []string       // generated ids reported by the calls
+	pids     map[int]string // PullID subscribers: thread -> id
+	closed   map[int]bool   // PullID subscribers whose channel has been closed
+	wg       sync.WaitGroup
 }
 
 func newWorld(sc *scenario) *world {
-	w := &world{vgot: map[int][]ovchange{}, cgot: map[int][]ochange{}, lossy: map[int]<-chan *resource.CollectionChange{}}
+	w := &world{vgot: map[int][]ovchange{}, cgot: map[int][]ochange{}, lossy: map[int]<-chan *resource.CollectionChange{}, pids: map[int]string{}, closed: map[int]bool{}}
 	w.ctx, w.cancel = context.WithCancel(context.Background())
 	vopts := []resource.Option{resource.WithClock(&fakeClock{})}
 	if sc.vinit != nil {
 		vopts = append(vopts, resource.WithInitialValue(toProto(*sc.vinit)))
 	}
 	w.val = resource.NewValue(vopts...)
-	w.coll = resource.NewCollection(resource.WithClock(&fakeClock{}))
+	w.rng = &gidRNG{bufs: map[int64][][]byte{}}
+	w.coll = resource.NewCollection(resource.WithClock(&fakeClock{}), resource.WithRNG(w.rng))
 	for _, it := range sc.cinit {
 		if _, err := w.coll.Update(it.id, toProto(it.m), resource.WithCreateIfAbsent(), resource.WithWriteTime(time.Unix(0, it.t))); err != nil {
 			panic(err)
@@ -174,6 +191,19 @@ func (w *world) exec(t int, c *fcall) fout {
 		m, err := w.coll.Update(c.id, toProto(c.msg), c.o.opts()...)
 		return fout{fromProto(nilIfErr(m, err)), code(err)}
 	case kAdd:
+		if c.genCands != nil {
+			w.rng.set(curGID(), c.genCands)
+			reported := ""
+			opts := append(c.o.opts(), resource.WithGenIDIfAbsent(), resource.WithIDCallback(func(id string) { reported = id }))
+			m, err := w.coll.Add("", toProto(c.msg), opts...)
+			if reported != "" {
+				w.mu.Lock()
+				w.extraIDs = append(w.extraIDs, reported)
+				w.mu.Unlock()
+			}
+			c.id = reported
+			return fout{fromProto(nilIfErr(m, err)), code(err)}
+		}
 		m, err := w.coll.Add(c.id, toProto(c.msg), c.o.opts()...)
 		return fout{fromProto(nilIfErr(m, err)), code(err)}
 	case kDelete:
@@ -193,6 +223,28 @@ func (w *world) exec(t int, c *fcall) fout {
 				w.vgot[t] = append(w.vgot[t], oc)
 				w.mu.Unlock()
 			}
+		}()
+		return fout{}
+	case kSubID:
+		ch := w.coll.PullID(w.ctx, c.id, c.ro.opts()...)
+		w.mu.Lock()
+		w.vgot[t] = []ovchange{}
+		w.pids[t] = c.id
+		w.mu.Unlock()
+		w.wg.Add(1)
+		go func() {
+			defer w.wg.Done()
+			for e := range ch {
+				oc := ovchange{v: *fromProto(e.Value), t: e.ChangeTime.UnixNano(), seed: e.SeedValue, last: e.LastSeedValue}
+				w.mu.Lock()
+				w.vgot[t] = append(w.vgot[t], oc)
+				w.mu.Unlock()
+			}
+			w.mu.Lock()
+			if w.ctx.Err() == nil {
+				w.closed[t] = true // closed by the subscription itself, not by our cancel
+			}
+			w.mu.Unlock()
 		}()
 		return fout{}
 	case kSubCL:
@@ -244,13 +296,40 @@ func (w *world) finish(r *runResult) {
 	}
 	r.finalC = w.list()
 	st := resource.WithWriteTime(time.Unix(0, sentinelTime))
-	if len(w.vgot) > 0 {
+	if len(w.vgot) > len(w.pids) {
 		w.val.Set(toProto(fmsg{9001, 9001, 9001}), st)
 		w.val.Set(toProto(fmsg{9002, 9002, 9002}), st)
 	}
 	if len(w.cgot) > 0 || len(w.lossy) > 0 {
 		w.coll.Update("zz", toProto(fmsg{9001, 9001, 9001}), resource.WithCreateIfAbsent(), st)
 		w.coll.Update("zz", toProto(fmsg{9002, 9002, 9002}), resource.WithCreateIfAbsent(), st)
+	}
+	// a PullID subscriber only hears about its own item: the sentinel is written to that item
+	for _, id := range w.pids {
+		w.coll.Update(id, toProto(fmsg{9001, 9001, 9001}), resource.WithCreateIfAbsent(), st)
+		w.coll.Update(id, toProto(fmsg{9002, 9002, 9002}), resource.WithCreateIfAbsent(), st)
+	}
+	// each PullID reader has either seen its sentinel or the close of its channel
+	for t := range w.pids {
+		deadline := time.Now().Add(stepTimeout)
+		for {
+			w.mu.Lock()
+			ok := w.closed[t]
+			for _, e := range w.vgot[t] {
+				if e.t == sentinelTime {
+					ok = true
+				}
+			}
+			w.mu.Unlock()
+			if ok {
+				break
+			}
+			if time.Now().After(deadline) {
+				r.err = fmt.Errorf("the sentinel never reached the PullID subscriber of thread %d", t)
+				break
+			}
+			time.Sleep(50 * time.Microsecond)
+		}
 	}
 	// the readers that were behind catch up now: everything up to the (merged) sentinel
 	w.mu.Lock()
@@ -289,6 +368,13 @@ func (w *world) finish(r *runResult) {
 		}
 		r.vstreams[t] = out
 	}
+	r.closed = nil
+	for t := range w.pids {
+		if w.closed[t] {
+			r.closed = append(r.closed, t)
+		}
+	}
+	sort.Ints(r.closed)
 	for t, l := range w.cgot {
 		out := []ochange{}
 		for _, e := range l {
@@ -308,7 +394,12 @@ func (w *world) finish(r *runResult) {
 // subscription-free route: List is sorted by id, and the scenario's ids are known
 func (w *world) list() []kv {
 	out := []kv{}
-	for _, id := range knownIDs {
+	seenID := map[string]bool{}
+	for _, id := range append(append([]string{}, knownIDs...), w.extraIDs...) {
+		if seenID[id] {
+			continue
+		}
+		seenID[id] = true
 		if m, ok := w.coll.Get(id); ok {
 			out = append(out, kv{id, *fromProto(m)})
 		}
@@ -321,6 +412,32 @@ func (w *world) list() []kv {
 }
 
 var knownIDs = []string{"a", "b", "c"}
+
+// gidRNG serves to each goroutine the candidate byte strings prepared for its call
+type gidRNG struct {
+	mu   sync.Mutex
+	bufs map[int64][][]byte
+}
+
+func (r *gidRNG) set(gid int64, bufs [][]byte) {
+	r.mu.Lock()
+	defer r.mu.Unlock()
+	r.bufs[gid] = append([][]byte{}, bufs...)
+}
+func (r *gidRNG) Read(p []byte) (int, error) {
+	r.mu.Lock()
+	defer r.mu.Unlock()
+	gid := curGID()
+	l := r.bufs[gid]
+	for i := range p {
+		p[i] = 0x41
+	}
+	if len(l) > 0 {
+		copy(p, l[0])
+		r.bufs[gid] = l[1:]
+	}
+	return len(p), nil
+}
 
 // a lock-held probe: at schedule position `at`, thread `holder` is parked at `point` (inside a
 // lock) while thread `other` is released into its next step; both steps are then completed and
@@ -344,6 +461,10 @@ func runScheduleProbe(sc *scenario, prefix []int, pick func(alive []int) int, pr
 	for t := range sc.prog {
 		t := t
 		threads[t] = ctl.spawn(func() { r.results[t] = w.exec(t, sc.prog[t]) })
+		if sc.prog[t].kind == kSubID {
+			threads[t].wantAdopt = true
+			threads[t].adoptCh = make(chan *thread, 1)
+		}
 	}
 	for step := 0; ; step++ {
 		var alive []int
@@ -484,7 +605,7 @@ func emitCase(o *vcoq.Out, sc *scenario, r *runResult, extraTags []string) {
 		jcs[fmt.Sprint(t)] = js
 	}
 	term := vcoq.App("CaseSched", "None", coqOptMsg(sc.vinit), vcoq.List(cinit), vcoq.List(prog), coqNats(r.sched),
-		vcoq.List(res), coqOptMsg(r.finalV), coqKVs(r.finalC), vcoq.List(vs), vcoq.List(cs))
+		vcoq.List(res), coqOptMsg(r.finalV), coqKVs(r.finalC), vcoq.List(vs), vcoq.List(cs), coqNats(r.closed))
 	tags := append([]string{}, sc.tags...)
 	tags = append(tags, extraTags...)
 	lost := false
@@ -505,7 +626,7 @@ func emitCase(o *vcoq.Out, sc *scenario, r *runResult, extraTags []string) {
 		Coq: term,
 		JSON: map[string]any{"value_initial": jsMsg(sc.vinit), "collection_initial": jinit, "program": jsProg(sc),
 			"schedule": r.sched, "results": jres, "final_get": jsMsg(r.finalV), "final_list": jsKVs(r.finalC),
-			"value_streams": jvs, "collection_streams": jcs},
+			"value_streams": jvs, "collection_streams": jcs, "pullid_closed": r.closed},
 		Key:        term,
 		NonTrivial: len(sc.prog) >= 2,
 		Tags:       tags,
@@ -633,6 +754,38 @@ func genC02(o *vcoq.Out, r *vcoq.Rand, tier string) error {
 	{
 		sc := &scenario{prog: []*fcall{mkCall(valueTmpls[1], 0, base), mkCall(valueTmpls[2], 1, base)}, tags: []string{"resource:value", "initial:nil"}}
 		exploreAll(sc, 0, emit(sc, "exhaustive-2"))
+	}
+	// generated ids: two concurrent Add("") whose rng draws the SAME first candidate / different ones;
+	// every interleaving.  Both succeed under different ids, or the loser is Aborted; never one id twice.
+	for _, collide := range []bool{true, false} {
+		c0 := [][]byte{[]byte("idAAAA"), []byte("idBBBB0"), []byte("idCCCC00")}
+		c1 := [][]byte{[]byte("idAAAA"), []byte("idDDDD0"), []byte("idEEEE00")}
+		if !collide {
+			c1[0] = []byte("idFFFF")
+		}
+		sc := &scenario{cinit: collInit(true), tags: []string{"generated-id", fmt.Sprintf("same-first-candidate:%v", collide)}}
+		sc.prog = []*fcall{
+			{kind: kAdd, msg: fmsg{base + 60, 0, 0}, o: &fwo{}, name: "add-gen", genCands: c0},
+			{kind: kAdd, msg: fmsg{base + 61, 0, 0}, o: &fwo{}, name: "add-gen", genCands: c1},
+		}
+		exploreAll(sc, 0, func(rr *runResult) {
+			ids := map[string]int{}
+			for i, c := range sc.prog {
+				if c.id == "" {
+					o.Directs = append(o.Directs, vcoq.Direct{What: "Add with WithGenIDIfAbsent reported no id", Class: "gen-id-none", Replay: map[string]any{"schedule": rr.sched}})
+					return
+				}
+				if rr.err == nil && rr.results[i].code == 0 {
+					ids[c.id]++
+				}
+			}
+			for id, n := range ids {
+				if n > 1 {
+					o.Directs = append(o.Directs, vcoq.Direct{What: "two concurrent Adds with generated ids both succeeded under the same id " + id, Class: "gen-id-twice", Replay: map[string]any{"schedule": rr.sched}})
+				}
+			}
+			emitCase(o, sc, rr, []string{"exhaustive-2"})
+		})
 	}
 	// a Delete starved by interfering writers: Unavailable exactly after five lost races
 	for _, interferers := range []int{4, 5} {
@@ -802,6 +955,30 @@ func genC03(o *vcoq.Out, r *vcoq.Rand, tier string) error {
 		pr := probe{at: 2, holder: 0, other: 1, point: "bus.send.snapshot", blocked: &blocked}
 		rr := runScheduleProbe(sc, []int{0, 0}, lowest, &pr)
 		emitCase(o, sc, rr, []string{"targeted"})
+	}
+	// PullID: the subscription point is wherever its goroutine gets to open the inner Pull
+	pidSpecs := []struct {
+		present bool
+		writers []string
+		ro      int
+	}{
+		{true, []string{"upsert-delta"}, 0},
+		{true, []string{"upsert"}, 1},
+		{false, []string{"add"}, 2},
+		{true, []string{"delete-expected"}, 0},
+		{true, []string{"upsert", "delete-check"}, 0},
+		{false, []string{"add", "delete-allow-missing"}, 0},
+		{true, []string{"update-cas", "update-other-id"}, 3},
+	}
+	for _, ps := range pidSpecs {
+		sc := &scenario{cinit: collInit(ps.present)}
+		for t, n := range ps.writers {
+			sc.prog = append(sc.prog, mkCall(ct(n), t, base))
+		}
+		ro := roVariants[ps.ro]
+		sc.prog = append(sc.prog, &fcall{kind: kSubID, id: "a", ro: &ro, name: "pull-id"})
+		sc.tags = []string{"pull-id", "writers:" + strings.Join(ps.writers, "+")}
+		exploreAll(sc, 0, func(rr *runResult) { emitCase(o, sc, rr, []string{"exhaustive"}) })
 	}
 	// sampled: up to three writers and two subscribers
 	n := 60
